@@ -144,6 +144,20 @@ pub fn run(k: &str, c: &Value) -> Value {
             }
             json!({ "out": out })
         }
+        // line_surface_deviations: every actual point whose closest station lies in the interval, in order, as a deviation set
+        "c16.lsd" => {
+            let pts = p2s(&c["curve"]);
+            let curve = match Curve2::from_points(&pts, fx(&c["tol"]), c["closed"].as_bool().unwrap()) { Ok(c) => c, Err(_) => return json!({"err": "curve"}) };
+            let actual = p2s(&c["queries"]);
+            let iv = if c["interval"].is_null() { None } else { Some(engeom::common::Interval::new(fx(&c["interval"][0]), fx(&c["interval"][1]))) };
+            let set = match std::panic::catch_unwind(std::panic::AssertUnwindSafe(|| engeom::metrology::line_profiles::line_surface_deviations(&curve, &actual, iv))) {
+                Ok(s) => s, Err(_) => return json!({"panic": true}) };
+            let each: Vec<Value> = actual.iter().map(|q| { let st = curve.at_closest_to_point(q); let d = engeom::metrology::line_profiles::point_curve2_deviation(&st, q);
+                json!({"l": hx(st.length_along()), "dev": hx(d.deviation), "p": hp2(&d.surface.point)}) }).collect();
+            let zone = std::panic::catch_unwind(std::panic::AssertUnwindSafe(|| set.symmetrical_zone_size())).ok();
+            json!({"set": set.iter().map(|d| json!({"dev": hx(d.deviation), "p": hp2(&d.surface.point)})).collect::<Vec<_>>(), "each": each,
+                   "max": set.max().map(|d| hx(d.deviation)), "min": set.min().map(|d| hx(d.deviation)), "zone": zone.map(hx), "length": hx(curve.length())})
+        }
         // directed distance
         "c16.dist2" => {
             let a = p2(&c["a"]);
